@@ -1,7 +1,7 @@
 #!/bin/sh
 # seedsweep.sh SEEDS... : run every registered quick check with each seed (checks in parallel, seeds in sequence)
 cd "$(dirname "$0")/.."
-make setup > .work/sweep_setup.log 2>&1 || { echo "setup failed"; tail -5 .work/sweep_setup.log; exit 1; }
+mkdir -p .work && make setup > .work/sweep_setup.log 2>&1 || { echo "setup failed"; tail -5 .work/sweep_setup.log; exit 1; }
 mkdir -p .work/sweep
 for s in "$@"; do
   python3 -c "import json; print('\n'.join(c['property_id'] for c in json.load(open('MANIFEST.json'))['checks']))" | \
